@@ -73,6 +73,8 @@ Theorem C01_one_entry_per_selection :
 Proof.
   intros S G frags any vars fuel obj id alias name args fsels t depth path es ea cs H.
   destruct fuel as [|fuel']; [discriminate|]. rewrite sem_field_eq in H. cbv zeta in H.
+  destruct (undeclared_args S t name args) as [|b0 bad].
+  2:{ inversion H; subst. simpl. split; [lia|]. intros kv []. }
   destruct (Nat.eqb name TYPENAME).
   { inversion H; subst. simpl. split; [lia|]. intros kv [<-|[]]. reflexivity. }
   destruct (get_field_def S t name) as [fd|].
@@ -91,11 +93,14 @@ Proof.
 Qed.
 Print Assumptions C01_one_entry_per_selection.
 
+(* (no object type declares a field called __typename - the name is reserved, C13 - so no argument
+   is "undeclared by the field" there; the hypothesis says just that) *)
 Theorem C01_typename :
   forall S G frags any vars fuel obj id alias args fsels t depth path,
+    undeclared_args S t TYPENAME args = [] ->
     sem_field S G frags any vars (Datatypes.S fuel) obj id alias TYPENAME args fsels t depth path
     = Done ([(key_of alias TYPENAME, RTypeName t)], [], []).
-Proof. intros. rewrite sem_field_eq. reflexivity. Qed.
+Proof. intros. rewrite sem_field_eq. cbv zeta. rewrite H. reflexivity. Qed.
 Print Assumptions C01_typename.
 
 (* ---- a concrete instance: alias + inline fragment + list with a null element + nested object ---- *)
